@@ -32,14 +32,25 @@
 //	    still appear (the AST is taken before compilation).
 //	V8a An enum item comment is the text after `//` up to the end of the line with LEADING blanks removed;
 //	    trailing blanks are kept by the tree, so the generator writes none (left open, not demanded).
+//	V8b An enum item comment is only possible inside a /* */ annotation (also in the enum of an `or` rule-set
+//	    there). It belongs to the item written last before it — whether it stands after the comma, before the
+//	    comma, or on the next line — and EVERY character up to the line end is its text: `#`, `##`, `//`, `/*`,
+//	    `*/`, `-`, `@`, `|`, quotes, brackets, commas, colons are ordinary there (inside a multi-line annotation
+//	    `#` never starts a user comment).
+//	V11a Note texts come from the same pool. In a /* */ annotation the note is verbatim up to `*/` (so `#`, `//`,
+//	    `/*`, line breaks are ordinary; `*/` itself cannot be written); in a `//` annotation everything is
+//	    ordinary except `#`, which starts a user comment: the note is the text before the first `#`, trimmed
+//	    (possibly empty).
+//	V15 An alternative written more than once — `@a | @b | @a`, `@a | @a`, or: ["@t", {type: "@t"}, "@t"],
+//	    or: ["integer", {type: "integer"}] — comes back as often as written, each in its spelling and place.
 //	V14 SchemaType precedence: enum > or > type rule (decoded value, e.g. "any", "email", "@t", "mixed",
 //	    "enum", "decimal") > precision ("decimal") > JSON kind of the example
 //	    (integer / float / string / boolean / null / object / array).
 //
 // Surface-syntax restrictions of the generator (scanner / loader rules of the unchanged tree, not AST matters):
 // a node that carries an annotation stands alone on its line (an object's `{` and its first property never
-// share a line); a bare rule name may be followed by spaces but not by a tab; a note never contains `#` (it
-// starts a user comment that cuts the note); numbers have no exponent. (The earlier restriction on the rule name
+// share a line); a bare rule name may be followed by spaces but not by a tab; a text that follows `//` or `/*`
+// directly (no rule object) does not start with `{`; numbers have no exponent. (The earlier restriction on the rule name
 // `enum` inside an `or` rule-set is gone: quoted / blank-followed spellings are generated since the library fix.)
 // String literals include contents that look like other JSON kinds ("1.5", "true", "{", "", "a.b", escaped
 // spellings); such cases are evaluated 8 times in one run and every evaluation must give the expected tree.
@@ -193,7 +204,9 @@ func Run(args []string) {
 	}
 	rep := vh.NewReport("c16-ast", "abstract schemas (literals of 5 kinds, objects with plain keys and at most one key shortcut, arrays, "+
 		"reference shortcuts @t and @t|@u, rule sets valid by construction incl. enum inline/@E, or with type names and rule-sets, allOf, "+
-		"additionalProperties, precision/decimal, format types, notes; random layout, // and /* */ annotations, LF/CRLF) printed as JSight; "+
+		"additionalProperties, precision/decimal, format types; repeated alternatives in shortcuts and or rules (same / other spelling); "+
+		"notes and enum item comments drawn from a pool with every scanner-relevant character (# ## // /* */ - @ | quotes brackets , : non-ASCII), "+
+		"item comments after / before the comma / on their own line, also in or rule-sets; random layout, // and /* */ annotations, LF/CRLF) printed as JSight; "+
 		"expected AST computed from the IR; nontrivial = the root has children, rules or a note")
 	n := vh.Pick(12000, 1500000)
 	base := vh.Seed()*1000003 + salt
